@@ -634,3 +634,77 @@ def _show(t):
     if k == 'call':
         return f'{t[1]}({", ".join(_show(a) for a in t[2])})'
     return repr(t)
+
+
+# ----------------------------------------------------------------------
+# NULL truth table of the NULL-propagating nodes (part of R-NULLSTRICT)
+
+def _null_table(P, ci, call, operands):
+    """Execute `call` for every NULL/non-NULL assignment of the operands and every outcome of the comparisons between
+    non-NULL values.  -> list of (assignment, result) that break `result is NULL iff some operand is NULL`."""
+    import itertools
+    bad = []
+    V = {a: finite.Sym('V_' + a) for a in operands}
+    ncases = 0
+    for combo in itertools.product((None, 'v'), repeat=len(operands)):
+        assign = {a: (None if c is None else V[a]) for a, c in zip(operands, combo)}
+        for outcomes in itertools.product((True, False), repeat=3):
+            oc = list(outcomes)
+            used = []
+
+            def order(op, l, r, _oc=oc, _used=used):
+                _used.append(1)
+                return _oc[(len(_used) - 1) % len(_oc)]
+
+            def callh(e, st, m, _assign=assign):
+                src = ast.unparse(e.func)
+                if src.startswith('self.') and src[5:] in _assign and len(e.args) == 1:
+                    return _assign[src[5:]]
+                if src.startswith('self.'):
+                    return finite.Sym('RESULT')       # the underlying operation applied: a non-NULL result
+                if isinstance(e.func, ast.Attribute):
+                    return finite.Sym('RESULT')
+                return NotImplemented
+            mach = finite.Machine(call=callh, order=order, names={'self': finite.Sym('self'), 'context': finite.Sym('ctx')},
+                                  expr=lambda e, st, m: finite.Sym(ast.unparse(e)) if isinstance(e, ast.Attribute) else NotImplemented)
+            try:
+                mach.run(body_without_docstring(call.node), {})
+                got = None
+            except finite.Return as r:
+                got = r.value
+            ncases += 1
+            want_null = any(v is None for v in assign.values())
+            if (got is None) != want_null:
+                bad.append((dict(zip(operands, combo)), got))
+            if not used:
+                break       # no comparison consulted: outcomes are irrelevant
+    return bad, ncases
+
+
+_orig_nullstrict = rule_nullstrict
+
+
+def rule_nullstrict(P) -> RuleResult:       # noqa: F811
+    res = _orig_nullstrict(P)
+    qc = P.module(QC)
+    for name, (kind, operands, why) in NULL_CONTRACT.items():
+        if kind != 'strict':
+            continue
+        ci = qc.classes.get(name)
+        if ci is None:
+            raise AnalysisError(f'anchor vanished: {name}')
+        call = P.find_method(ci, '__call__')
+        try:
+            bad, ncases = _null_table(P, ci, call, operands)
+        except AnalysisError as exc:
+            res.info(f'{name}: NULL truth table not computed ({exc})')
+            continue
+        if bad:
+            assign, got = bad[0]
+            desc = ', '.join(f'{k} {"NULL" if v is None else "non-NULL"}' for k, v in assign.items())
+            res.fail(ci.fq + '.__call__', 'null-table',
+                     f'{name} must yield NULL exactly when an operand is NULL; with {desc} it yields '
+                     f'{"NULL" if got is None else repr(got)}', loc(call))
+        else:
+            res.ok({'class': name, 'null_truth_table_cases': ncases})
+    return res
